@@ -353,6 +353,7 @@ type histLine struct {
 			K    int    `json:"k"`
 		} `json:"a"`
 		O json.RawMessage `json:"o"`
+		B bool            `json:"b"`
 	} `json:"h"`
 	O      json.RawMessage `json:"o"`
 	Fnres  string          `json:"fnres"`
@@ -564,6 +565,15 @@ func scriptScenario(fam family, h histLine, id string) *Scenario {
 		default:
 			vlib.Infra("script %s: unknown environment action %s", id, e.A.Name)
 		}
+		if e.B && len(sc.Steps) > 0 && sc.Steps[len(sc.Steps)-1].Op == "send" && st.Op == "send" {
+			// second frame of one client write: merged with the previous step, expectation of the second
+			prev := sc.Steps[len(sc.Steps)-1]
+			second := st
+			second.Expect = nil
+			prev.Op, prev.Second, prev.Expect = "send2", &second, st.Expect
+			sc.Steps[len(sc.Steps)-1] = prev
+			continue
+		}
 		sc.Steps = append(sc.Steps, st)
 	}
 	return sc
@@ -589,6 +599,7 @@ func randomScenario(rng *rand.Rand, id string) *Scenario {
 	} else {
 		sc.Cfg.KA = []int{0, 1, 1, 4}[rng.Intn(4)]
 	}
+	sc.Cfg.LingerMs = []int{0, 0, 3, 15}[rng.Intn(4)]
 	sc.End = pick("abort", "abort", "closef", "term", "cancel")
 	sync := func() bool { return rng.Intn(10) < 6 }
 	// the first message
@@ -599,11 +610,13 @@ func randomScenario(rng *rand.Rand, id string) *Scenario {
 		sc.Steps = append(sc.Steps, Step{Op: "sleep", Ms: 60})
 	case r == 17:
 		sc.Steps = append(sc.Steps, Step{Op: "send", M: pick("term", "invalid", "s2c", "ping", "stop"), ID: "1", Sync: sync()})
+	case r == 18: // init and the first start in one TCP write
+		sc.Steps = append(sc.Steps, Step{Op: "send2", M: "init", Sync: sync(), Second: &Step{Op: "send", M: "start", ID: "1", Inst: "1x1", Kind: "ok"}})
 	default: // start before init
 		sc.Steps = append(sc.Steps, Step{Op: "send", M: "start", ID: "1", Inst: "1x1", Kind: "ok", Sync: sync()}, Step{Op: "send", M: "init", Sync: sync()})
 	}
 	count := map[string]int{"1": 0, "2": 0}
-	if len(sc.Steps) == 2 {
+	if len(sc.Steps) == 2 || sc.Steps[0].Op == "send2" {
 		count["1"] = 1
 	}
 	var live []string // instances started and not yet told to end
@@ -640,7 +653,25 @@ func randomScenario(rng *rand.Rand, id string) *Scenario {
 			} else {
 				live = append(live, inst)
 			}
-			sc.Steps = append(sc.Steps, Step{Op: "send", M: "start", ID: id, Inst: inst, Kind: kind, Flavor: rng.Intn(4), Sync: sync()})
+			st := Step{Op: "send", M: "start", ID: id, Inst: inst, Kind: kind, Flavor: rng.Intn(4), Sync: sync()}
+			if kind == "ok" && rng.Intn(4) == 0 {
+				// a second frame in the same TCP write: its stop, a terminate, or a start of the other id
+				st.Op = "send2"
+				switch rng.Intn(4) {
+				case 0, 1:
+					st.Second = &Step{Op: "send", M: "stop", ID: id}
+					live = live[:len(live)-1]
+				case 2:
+					st.Second = &Step{Op: "send", M: "term"}
+					k = n
+				default:
+					o := map[string]string{"1": "2", "2": "1"}[id]
+					count[o]++
+					st.Second = &Step{Op: "send", M: "start", ID: o, Inst: fmt.Sprintf("%sx%d", o, count[o]), Kind: "ok"}
+					live = append(live, st.Second.Inst)
+				}
+			}
+			sc.Steps = append(sc.Steps, st)
 		case r < 56 && len(live) > 0:
 			i := rng.Intn(len(live))
 			cmd := pick("emit", "emit", "emit", "end", "end", "suberr", "panic")
@@ -678,37 +709,80 @@ func randomScenario(rng *rand.Rand, id string) *Scenario {
 	return sc
 }
 
-// specialScenarios: the reproducers of the known findings (so that every run re-observes them)
-// and the restart-race hammer.
+// specialScenarios: fixed sessions that every run plays - the reproducers of the (repaired) findings
+// as regressions, the restart hammer, two frames in one TCP write, a Source that lingers a little
+// after its cancellation while the connection is being ended, a silent client with InitTimeout.
 func specialScenarios(thorough bool) []*Scenario {
 	init := Step{Op: "send", M: "init", Sync: true}
+	start := func(id, inst string) Step {
+		return Step{Op: "send", M: "start", ID: id, Inst: inst, Kind: "ok", Sync: true}
+	}
 	var out []*Scenario
 	for _, p := range []string{"gws", "tws"} {
+		endMsg := "term"
+		if p == "tws" {
+			endMsg = "closef"
+		}
 		out = append(out,
 			&Scenario{ID: "dup-start-stop-" + p, Mode: "special", Cfg: Cfg{Proto: p, InitFn: "accept"}, End: "abort", Steps: []Step{init,
-				{Op: "send", M: "start", ID: "1", Inst: "1x1", Kind: "ok", Sync: true},
-				{Op: "send", M: "start", ID: "1", Inst: "1x2", Kind: "ok", Sync: true},
+				start("1", "1x1"), start("1", "1x2"),
 				{Op: "src", Inst: "1x1", M: "emit", Sync: true},
 				{Op: "src", Inst: "1x2", M: "emit", Sync: true},
 				{Op: "src", Inst: "1x1", M: "end", Sync: true},
 				{Op: "src", Inst: "1x2", M: "emit", Sync: true},
 				{Op: "send", M: "stop", ID: "1", Sync: true}}},
 			&Scenario{ID: "dup-start-detached-" + p, Mode: "special", Cfg: Cfg{Proto: p, InitFn: "detached"}, End: "abort", Steps: []Step{init,
-				{Op: "send", M: "start", ID: "1", Inst: "1x1", Kind: "ok", Sync: true},
-				{Op: "send", M: "start", ID: "1", Inst: "1x2", Kind: "ok", Sync: true},
+				start("1", "1x1"), start("1", "1x2"),
 				{Op: "send", M: "stop", ID: "1", Sync: true}}},
 			&Scenario{ID: "suberr-then-panic-" + p, Mode: "special", Cfg: Cfg{Proto: p, InitFn: "none"}, End: "closef", Steps: []Step{init,
-				{Op: "send", M: "start", ID: "1", Inst: "1x1", Kind: "ok", Sync: true},
+				start("1", "1x1"),
 				{Op: "src", Inst: "1x1", M: "sp", Sync: true}}},
+			// two frames in ONE TCP write
+			&Scenario{ID: "one-write-start-stop-" + p, Mode: "special", Cfg: Cfg{Proto: p, InitFn: "accept", KA: 2, PO: 2}, End: "abort", Steps: []Step{init,
+				{Op: "send2", M: "start", ID: "1", Inst: "1x1", Kind: "ok", Sync: true, Second: &Step{Op: "send", M: "stop", ID: "1"}},
+				{Op: "send2", M: "start", ID: "2", Inst: "2x1", Kind: "ok", Sync: true, Second: &Step{Op: "send", M: "stop", ID: "2"}},
+				{Op: "send2", M: "start", ID: "1", Inst: "1x2", Kind: "ok", Sync: true, Second: &Step{Op: "send", M: "stop", ID: "1"}}}},
+			&Scenario{ID: "one-write-start-stop-detached-" + p, Mode: "special", Cfg: Cfg{Proto: p, InitFn: "detached"}, End: "closef", Steps: []Step{init,
+				{Op: "send2", M: "start", ID: "1", Inst: "1x1", Kind: "ok", Sync: true, Second: &Step{Op: "send", M: "stop", ID: "1"}}}},
+			&Scenario{ID: "one-write-init-start-" + p, Mode: "special", Cfg: Cfg{Proto: p, InitFn: "accept"}, End: "closef", Steps: []Step{
+				{Op: "send2", M: "init", Sync: true, Second: &Step{Op: "send", M: "start", ID: "1", Inst: "1x1", Kind: "ok"}},
+				{Op: "src", Inst: "1x1", M: "emit", Sync: true},
+				{Op: "src", Inst: "1x1", M: "end", Sync: true}}},
+			&Scenario{ID: "one-write-start-start-" + p, Mode: "special", Cfg: Cfg{Proto: p, InitFn: "none"}, End: "abort", Steps: []Step{init,
+				{Op: "send2", M: "start", ID: "1", Inst: "1x1", Kind: "ok", Sync: true, Second: &Step{Op: "send", M: "start", ID: "2", Inst: "2x1", Kind: "ok"}},
+				{Op: "src", Inst: "2x1", M: "emit", Sync: true},
+				{Op: "send", M: "stop", ID: "1", Sync: true},
+				{Op: "send", M: "stop", ID: "2", Sync: true}}},
+			&Scenario{ID: "one-write-start-end-" + p, Mode: "special", Cfg: Cfg{Proto: p, InitFn: "detached"}, End: "abort", Steps: []Step{init,
+				{Op: "send2", M: "start", ID: "1", Inst: "1x1", Kind: "ok", Sync: true, Second: &Step{Op: "send", M: endMsg}}}},
+			// a stopped operation is still winding down (40 ms) when the connection is ended
+			&Scenario{ID: "linger-stop-then-end-" + p, Mode: "special", Cfg: Cfg{Proto: p, InitFn: "accept", LingerMs: 40}, End: "abort", Steps: []Step{init,
+				start("1", "1x1"), start("2", "2x1"),
+				{Op: "send", M: "stop", ID: "1"},
+				{Op: "sleep", Ms: 5},
+				{Op: "send", M: endMsg, Sync: true}}},
+			&Scenario{ID: "linger-stop-then-abort-" + p, Mode: "special", Cfg: Cfg{Proto: p, InitFn: "detached", LingerMs: 40}, End: "abort", Steps: []Step{init,
+				start("1", "1x1"),
+				{Op: "send", M: "stop", ID: "1"},
+				{Op: "sleep", Ms: 5},
+				{Op: "send", M: "abort", Sync: true}}},
+			&Scenario{ID: "linger-stop-then-cancel-" + p, Mode: "special", Cfg: Cfg{Proto: p, InitFn: "accept", LingerMs: 40}, End: "abort", Steps: []Step{init,
+				start("1", "1x1"),
+				{Op: "send", M: "stop", ID: "1"},
+				{Op: "sleep", Ms: 5},
+				{Op: "cancel", Sync: true}}},
+			// a client that never says anything, InitTimeout configured: close 1002, CloseFunc once, nothing left
+			&Scenario{ID: "silent-client-init-timeout-" + p, Mode: "special", Cfg: Cfg{Proto: p, InitFn: "accept", InitTimeout: 80}, End: "abort", Steps: []Step{
+				{Op: "sleep", Ms: 400, Sync: true}}},
 		)
-		// (150 rounds per session: the Ws state of a trace grows with the number of operation instances)
-		nh := 1
+		// the restart hammer, bounded by rounds AND by time (quick: 20 rounds or 3 s; thorough: 150 or 30 s)
+		nh, rounds, msec := 1, 20, 3000
 		if thorough {
-			nh = 6
+			nh, rounds, msec = 4, 150, 30000
 		}
 		for k := 0; k < nh; k++ {
-			out = append(out, &Scenario{ID: fmt.Sprintf("restart-hammer-%s-%d", p, k), Mode: "hammer", Cfg: Cfg{Proto: p, InitFn: "none", KA: 1, PO: 1}, End: "abort", Iters: 150,
-				Steps: []Step{init, {Op: "hammer", ID: "1"}}})
+			out = append(out, &Scenario{ID: fmt.Sprintf("restart-hammer-%s-%d", p, k), Mode: "hammer", Cfg: Cfg{Proto: p, InitFn: "none", KA: 1, PO: 1}, End: "abort", Iters: rounds,
+				Steps: []Step{init, {Op: "hammer", ID: "1", Ms: msec}}})
 		}
 	}
 	out = append(out, &Scenario{ID: "init-bad-payload-gws-timeout", Mode: "special", Cfg: Cfg{Proto: "gws", InitFn: "accept", InitTimeout: 3000}, End: "abort",
@@ -781,7 +855,7 @@ func (ch *child) play(sc *Scenario) (*played, bool) {
 	got := make(chan rd, 1)
 	go func() { l, err := ch.out.ReadBytes('\n'); got <- rd{l, err} }()
 	to := 300 * time.Second
-	if sc.Long || sc.Mode == "hammer" {
+	if sc.Long {
 		to = 15 * time.Minute
 	}
 	select {
@@ -955,6 +1029,9 @@ func classOf(sc *Scenario) string {
 	cnt := map[string]int{}
 	for _, st := range sc.Steps {
 		k := st.Op + ":" + st.M
+		if st.Second != nil {
+			k += "+" + st.Second.M
+		}
 		if st.Op == "send" && st.M == "start" {
 			k += ":" + st.Kind
 		}
@@ -982,6 +1059,9 @@ func describe(t *tracedScenario, upto int) string {
 		}
 		if st.Kind == "bad" {
 			s += " (bad)"
+		}
+		if st.Second != nil {
+			s += " + " + st.Second.M + " " + st.Second.Inst + st.Second.ID + " in one write"
 		}
 		if !st.Sync && st.Expect == nil {
 			s += " ~"
@@ -1135,24 +1215,7 @@ func judge(c *vlib.Check, bin string, scs []*Scenario, results []*played) {
 			}
 		}
 		for _, n := range names {
-			key, what := "", ""
-			switch n {
-			case "dup":
-				key, what = "dup-start:second-operation-of-running-id", "a start with the id of an operation that is still executing was accepted: two operations execute under one id, so the client cannot tell whose completion it receives"
-			case "dup-stop":
-				key, what = "dup-start:stop-does-not-cancel-first-operation", "stop(id) was sent while two operations of the id were executing; the first one never saw its context cancelled (first look 2 s, second look 20 s, connection open)"
-			case "outlives":
-				key, what = "dup-start:operation-outlives-connection", "after the connection ended an operation is still executing, its context never cancelled ("+finalWhy(t.res.Events)+")"
-				if has["restart"] && !has["dup"] {
-					key = "restart-race:operation-outlives-connection"
-				}
-			case "dblerr":
-				key, what = "double-error-frame:subscription-error-then-panic", "a resolver that called AddSubscriptionError and then panicked: two error frames for one operation"
-			case "restart":
-				key, what = "restart-race:stop-does-not-cancel-restarted-operation", "the id was started again right after its completion had been received; the finished operation's deferred delete(active, id) removed the NEW operation's registration, so stop(id) found nothing to cancel (first look 2 s, second look 20 s, connection open)"
-			default:
-				key, what = "deviation:"+n, "named deviation "+n
-			}
+			key, what := devKey(n, has)
 			devCount[key]++
 			c.Violate(key, what+"\n"+describe(t, len(t.res.Events)), t.sc)
 		}
@@ -1324,20 +1387,59 @@ func selfTest(c *vlib.Check, ts []*tracedScenario, devs map[*tracedScenario][]st
 	c.Set("selftest_corrupted_traces_rejected", len(rej))
 }
 
-// classify a trace that Ws rejects even with the deviations of the open findings admitted: if the
-// REPAIRED deviation (AllowSilentInit, /repo 930d13f) explains it, name it; otherwise a key from the
-// rejected event.  Keys starting with "absent:" rest on the absence of an event.
+// devKey maps a named deviation (w.devs) to the key of the finding it belongs to.
+func devKey(n string, has map[string]bool) (string, string) {
+	switch n {
+	case "dup":
+		return "dup-start:second-operation-of-running-id", "a start with the id of an operation that is still executing was accepted: two operations execute under one id"
+	case "dup-stop":
+		return "dup-start:stop-does-not-cancel-first-operation", "stop(id) was sent while two operations of the id were executing; the first one never saw its context cancelled"
+	case "outlives":
+		if has["restart"] && !has["dup"] {
+			return "restart-race:operation-outlives-connection", "after the connection ended a restarted operation is still executing, its context never cancelled"
+		}
+		return "dup-start:operation-outlives-connection", "after the connection ended an operation started under a duplicate id is still executing, its context never cancelled"
+	case "dblerr":
+		return "double-error-frame:subscription-error-then-panic", "a resolver that called AddSubscriptionError and then panicked: two error frames for one operation"
+	case "restart":
+		return "restart-race:stop-does-not-cancel-restarted-operation", "the id was started again right after its completion had been received; the finished operation's deferred delete(active, id) removed the NEW operation's registration, so stop(id) found nothing to cancel"
+	case "silentinit":
+		return "init-bad-payload:no-close-no-closefunc", "connection_init with a non-object payload: no close frame, socket left open, CloseFunc never called"
+	}
+	return "deviation:" + n, "named deviation " + n
+}
+
+var absentDevs = map[string]bool{"dup-stop": true, "outlives": true, "restart": true, "silentinit": true}
+
+// classify a trace that Ws rejects.  If one of the named deviations (all of them repaired in /repo by
+// now: the constants are FALSE in the registered configurations) explains it, the violation gets the
+// key of that finding - the old behaviour is back; otherwise a key from the rejected event.  Keys
+// starting with "absent:" rest on the absence of an event.
 func classify(c *vlib.Check, r rejection) (string, string) {
 	t := r.t
 	base := describe(t, r.lineNo) + fmt.Sprintf("\nWs rejects event %d: %s", r.lineNo, evStr(r.line))
-	if len(t.res.Events) > 1 && t.res.Events[1].E == "CSend" && t.res.Events[1].M == "initbad" {
-		rej, _, err := validate(c, "WsTraceDev.cfg", cfgEdit(map[string]string{"AllowSilentInit": "TRUE"}), []*tracedScenario{t}, vlib.Work("C11", "tv-dev", t.sc.ID), false)
-		if err != nil {
-			vlib.Infra("trace validation (deviation classification): %v", err)
+	all := map[string]string{"AllowDupStart": "TRUE", "AllowSilentInit": "TRUE", "AllowDoubleError": "TRUE", "AllowRestartRace": "TRUE"}
+	rej, devs, err := validate(c, "WsTraceDev.cfg", cfgEdit(all), []*tracedScenario{t}, vlib.Work("C11", "tv-dev", t.sc.ID), false)
+	if err != nil {
+		vlib.Infra("trace validation (deviation classification): %v", err)
+	}
+	if names := devs[t]; len(rej) == 0 && len(names) > 0 {
+		has := map[string]bool{}
+		for _, n := range names {
+			has[n] = true
 		}
-		if len(rej) == 0 {
-			return "absent:init-bad-payload:no-close-no-closefunc", base + "\nconnection_init with a non-object payload: no close frame, socket left open, CloseFunc never called (the behaviour repaired by /repo 930d13f is back; accepted only with AllowSilentInit)"
+		// the most specific symptom names the violation
+		best := names[0]
+		for _, n := range names {
+			if absentDevs[n] {
+				best = n
+			}
 		}
+		key, what := devKey(best, has)
+		if absentDevs[best] {
+			key = "absent:" + key
+		}
+		return key, base + "\n" + what + fmt.Sprintf(" (the trace is accepted only with the named deviations %v, i.e. a repaired behaviour is back)", names)
 	}
 	key := "trace:" + r.line.E
 	if r.line.M != "" && r.line.E != "Panic" && r.line.E != "Garbled" {
@@ -1353,6 +1455,8 @@ func classify(c *vlib.Check, r rejection) (string, string) {
 		}
 	case "Stall":
 		key = "absent:" + r.line.M
+	case "Panic":
+		base += "\nthe recover hook ran although no Source was scripted to panic: " + r.line.M
 	}
 	return key, base
 }
